@@ -476,10 +476,21 @@ class RSocketBase(RSocket, RSocketInternal):
         logger().debug('%s: Cleanup', self._log_identifier())
 
         self._is_closing = True
-        await cancel_if_task_exists(self._sender_task)
-        self._sender_task = None
-        await cancel_if_task_exists(self._receiver_task)
-        self._receiver_task = None
+        sender_task, receiver_task = self._sender_task, self._receiver_task
+
+        # the close sequence runs inside the receiver: a task can neither cancel nor await itself.
+        # a reconnect may start new tasks while this one waits: forget only the tasks stopped here.
+        if sender_task is not asyncio.current_task():
+            await cancel_if_task_exists(sender_task)
+
+            if self._sender_task is sender_task:
+                self._sender_task = None
+
+        if receiver_task is not asyncio.current_task():
+            await cancel_if_task_exists(receiver_task)
+
+            if self._receiver_task is receiver_task:
+                self._receiver_task = None
 
     async def _close_transport(self):
         if self._current_transport().done():
